@@ -237,7 +237,11 @@ type c02Result struct {
 	harness string
 }
 
-const c02Prefix = "default/t/0/"
+// The partition under test is t/1 of an 11-partition topic whose partition 10 - a textual neighbour of
+// "1" in every key scheme - already holds flushed segments with the same base offsets and larger
+// last offsets: offsets assigned to t/1 must not depend on them, also after a restart.
+const c02P = int32(1)
+const c02Prefix = "default/t/1/"
 
 func c02Expected(a *c02Acc) []byte {
 	b := append([]byte(nil), a.item.Bytes...)
@@ -309,7 +313,7 @@ func c02Run(hist *c02Hist, alpha [][]c02Item) (res c02Result) {
 		}
 	}()
 	bucket := fakes3.NewBucket()
-	inner := metadata.NewInMemoryStore(vMeta(map[string]int{"t": 1}))
+	inner := metadata.NewInMemoryStore(vMeta(map[string]int{"t": 11}))
 	store := &c02Store{Store: inner}
 	epoch := 0
 	newH := func() *handler {
@@ -326,6 +330,18 @@ func c02Run(hist *c02Hist, alpha [][]c02Item) (res c02Result) {
 		h.s3Health = broker.NewS3HealthMonitor(broker.S3HealthConfig{LatencyWarn: 1000 * time.Hour, LatencyCrit: 2000 * time.Hour, ErrorWarn: 2, ErrorCrit: 3})
 		handlers = append(handlers, h)
 		return h
+	}
+	// the neighbour partition is written by an earlier broker incarnation
+	{
+		h0 := newH()
+		h0.flushOnAck = true
+		for i, n := range []int{3, 2} {
+			if r, err := vProduceOne(h0, "t", 10, -1, enum.SimpleBatch(fmt.Sprintf("sib%d", i), n, 9)); err != nil || r.Code != 0 {
+				res.harness = fmt.Sprintf("neighbour partition produce: err=%v code=%d", err, r.Code)
+				return
+			}
+		}
+		epoch++
 	}
 	h := newH()
 	acks := int16(-1)
@@ -397,7 +413,7 @@ func c02Run(hist *c02Hist, alpha [][]c02Item) (res c02Result) {
 		if hist.StoreFail == i+1 {
 			store.setFail(true)
 		}
-		pr, err := vProduceOne(h, "t", 0, acks, it.Bytes)
+		pr, err := vProduceOne(h, "t", c02P, acks, it.Bytes)
 		store.setFail(false)
 		if err != nil {
 			res.harness = fmt.Sprintf("produce #%d: %v", i+1, err)
@@ -440,7 +456,7 @@ func c02Run(hist *c02Hist, alpha [][]c02Item) (res c02Result) {
 		sep := hist.Seps[i]
 		sig.WriteString("," + sep)
 		if sep == "flush" || sep == "flush+restart" {
-			plog, err := h.getPartitionLog(bg(), "t", 0)
+			plog, err := h.getPartitionLog(bg(), "t", c02P)
 			if err != nil {
 				res.viol = &c02Viol{c02Key(lastAcc(), false, "partition-open-failed"), fmt.Sprintf("getPartitionLog after produce #%d: %v", i+1, err)}
 				res.sig = sig.String()
@@ -483,7 +499,7 @@ func c02Run(hist *c02Hist, alpha [][]c02Item) (res c02Result) {
 			// with a failed store update the published watermark legitimately lags (C05's subject)
 			continue
 		}
-		fr, err := vFetchOne(h, "t", 0, a.base, 1<<20)
+		fr, err := vFetchOne(h, "t", c02P, a.base, 1<<20)
 		if err != nil {
 			res.harness = fmt.Sprintf("fetch at %d: %v", a.base, err)
 			return
@@ -499,7 +515,7 @@ func c02Run(hist *c02Hist, alpha [][]c02Item) (res c02Result) {
 			}
 			readErr := ""
 			if fr.Code != 0 {
-				if plog, err := h.getPartitionLog(bg(), "t", 0); err == nil {
+				if plog, err := h.getPartitionLog(bg(), "t", c02P); err == nil {
 					if _, rerr := plog.Read(bg(), a.base, 1<<20); rerr != nil {
 						readErr = " (PartitionLog.Read: " + rerr.Error() + ")"
 					}
